@@ -217,6 +217,34 @@ CholMech(mean, L, z, n, Transposed) ==
     [j \in 1..n |-> [i \in DOMAIN L |->
         mean[i] + VSumF(LAMBDA k : (IF Transposed THEN L[k][i] ELSE L[i][k]) * z[(k - 1) * n + j], DOMAIN L)]]
 
+\* SCALE COVARIANCE (class M: thresholds in the middle of the value range).  The statement is
+\* homogeneous: the factor of k^2 Sigma is k L and, with the mean scaled alike,
+\*     samples(k^2 Sigma, k mean, z) - k mean = k (samples(Sigma, mean, z) - mean)
+\* for every scale k, so a lattice case transported to ANY scale 2^-40 .. 2^40 is judged by the same
+\* exact lattice value (the adapter divides by the scale, a power of two: exact).  TLC checks the law
+\* on the integer-Cholesky scope for integer k; a factorisation with a shortcut under an ABSOLUTE
+\* tolerance (DiagTol > 0: 'diagonal fast path' when every off-diagonal |Sigma[i][j]| <= DiagTol)
+\* violates it - the faithful one (DiagTol = 0: the shortcut only for exactly diagonal matrices) does not.
+CholScaleL(L, k) == [i \in DOMAIN L |-> [j \in DOMAIN L |-> k * L[i][j]]]
+CholScaleV(v, k) == [i \in DOMAIN v |-> k * v[i]]
+CholAbs(v) == IF v < 0 THEN -v ELSE v
+CholFactorFull(sig) ==
+    LET RECURSIVE go(_, _)
+        go(F, j) == IF j > Len(sig) THEN F ELSE go(CholFactorStep(sig, F, j), j + 1)
+    IN go(CholZeroMat(Len(sig)), 1)
+CholFactorMech(sig, DiagTol) ==
+    IF \A i, j \in DOMAIN sig : i # j => CholAbs(sig[i][j]) <= DiagTol
+    THEN [i \in DOMAIN sig |-> [j \in DOMAIN sig |-> IF i = j THEN CholIsqrt(sig[i][i]) ELSE 0]]
+    ELSE CholFactorFull(sig)
+CholThmScale(c, k, DiagTol) ==
+    LET F1 == CholFactorMech(c.sigma, DiagTol)
+        Fk == CholFactorMech(CholSigma(CholScaleL(c.L, k)), DiagTol)
+        z  == SubSeq(c.pool, 1, CholN(c.L) * c.n)
+        s1 == CholMech(c.mean, F1, z, c.n, FALSE)
+        sk == CholMech(CholScaleV(c.mean, k), Fk, z, c.n, FALSE)
+    IN /\ Fk = CholScaleL(F1, k)
+       /\ \A j \in DOMAIN s1 : \A i \in DOMAIN s1[j] : sk[j][i] - k * c.mean[i] = k * (s1[j][i] - c.mean[i])
+
 \* The documented layout is one sample per row, (n, npar); the statement does not fix the
 \* orientation, so the transposed layout is accepted as well (and a 1 x npar array for the
 \* call without a count).
@@ -439,6 +467,42 @@ SmpScaleFailing(c, o) ==
          \cup (IF o.mono THEN {} ELSE {"monotone"})
 
 \* ==================================================================================
+\* 8. WORLD / PROCESS STATE (class W).  The outcome of a call depends on its arguments and on
+\*    the history of ITS object only - never on what other Generator objects were built or
+\*    sampled earlier in the process, nor on what the caller did to the arrays it was handed.
+\*    A session over two objects:  sched : Seq of "B1" | "B2" (build the generator of density
+\*    pa / pb on the common grid x), "S1" | "S2" (sample it at the deviates us), "X1" | "X2"
+\*    (the caller overwrites the array the object's last sample call returned).
+\*    case c = [kind, x, pa, pb, us, form, sched]; form = how the density is handed over
+\*    ("bound": the same method of two instances, "bound_call": __call__ of two callable objects,
+\*    "lambda" / "closure": one code object closing over different parameters, "table": arrays).
+\*    Every sample call is judged by the inverse-CDF clauses of section 1 for ITS density:
+\*    outcome = outcome in a fresh world (WldFreshWorld in SamplerMC).
+\*    Mechanism with a memo of cumulative tables (SamplerMC): MemoKey = "none" (the code: no
+\*    memo), "full" (keyed by function AND parameters: faithful), "func_only" (the key drops the
+\*    instance / closure parameters: deviating - the second object samples the first one's table).
+\* ==================================================================================
+WldDens(c, k)  == IF k = 1 THEN c.pa ELSE c.pb
+WldCase(c, k)  == [kind |-> c.kind, x |-> c.x, p |-> WldDens(c, k), us |-> c.us]
+WldObjOf(st)   == IF st \in {"B1", "S1", "X1"} THEN 1 ELSE 2
+WldIsSample(st) == st \in {"S1", "S2"}
+WldSamples(sched) == SelectSeq(sched, WldIsSample)
+\* a legal session: build before use, scribble only over a result that exists, build once
+WldLegal(sched) == \A i \in DOMAIN sched :
+    LET k == WldObjOf(sched[i])
+        built == \E j \in 1..(i - 1) : sched[j] = (IF k = 1 THEN "B1" ELSE "B2")
+        sampled == \E j \in 1..(i - 1) : sched[j] = (IF k = 1 THEN "S1" ELSE "S2")
+    IN IF sched[i] \in {"B1", "B2"} THEN ~built ELSE IF WldIsSample(sched[i]) THEN built ELSE sampled
+WldKey(form, kind, x, d, MemoKey) == IF MemoKey = "full" THEN <<form, kind, x, d>> ELSE <<form, kind, x>>
+\* o = [err, calls : Seq(sampler observation as in section 1)], one per sample step, in order
+WldFailing(c, o) ==
+    IF ~WldLegal(c.sched) \/ ~SmpValid(WldCase(c, 1)) \/ ~SmpValid(WldCase(c, 2)) THEN {"malformed_case"}
+    ELSE IF o.err # "none" THEN {"unexpected_error"}
+    ELSE LET ss == WldSamples(c.sched) IN
+         IF Len(o.calls) # Len(ss) THEN {"count"}
+         ELSE UNION {SmpFailing(WldCase(c, WldObjOf(ss[i])), o.calls[i]) : i \in DOMAIN ss}
+
+\* ==================================================================================
 QFailing(op, c, o) ==
     CASE op = "smp"  -> SmpFailing(c, o)
       [] op = "smpr" -> SmpRealFailing(c, o)
@@ -450,5 +514,6 @@ QFailing(op, c, o) ==
       [] op = "caps" -> CapScaleFailing(c, o)
       [] op = "boxs" -> BoxScaleFailing(c, o)
       [] op = "smps" -> SmpScaleFailing(c, o)
+      [] op = "wld"  -> WldFailing(c, o)
       [] OTHER       -> {"unknown_op"}
 =============================================================================
